@@ -50,6 +50,33 @@ pub fn programs(tier: Tier) -> ProgramSet {
             let source = render(&spec);
             out.push(Program { idx: 0, label: format!("{} [{}]", e.label, if custom { "custom error" } else { "standard error" }), k: e.k, spec, aux: json!(null), source });
         }
+        // the error function's return type is a type parameter that has to be inferred from parse_err_ty
+        if e.k <= 1 {
+            let mut spec = e.spec.clone();
+            spec.parse_err = false;
+            spec.extra_attrs.push("#[strum(parse_err_ty = vf_core::MyErr, parse_err_fn = vf_core::my_err_generic)]".into());
+            let source = render(&spec);
+            out.push(Program { idx: 0, label: format!("{} [error function with an inferred return type]", e.label), k: e.k + 1, spec, aux: json!(null), source });
+        }
+        // a default variant next to the custom error: every input is accepted, the function must never run
+        if e.k <= 1 && e.spec.generics.is_empty() {
+            for first in [false, true] {
+                let mut spec = e.spec.clone();
+                spec.parse_err = true;
+                let mut d = VariantSpec::unit("Dd");
+                d.default = true;
+                d.kind = Kind::Tuple(vec![FieldTy::Str]);
+                if first {
+                    spec.variants.insert(0, d);
+                } else {
+                    spec.variants.push(d);
+                }
+                if parse_domain(&spec) {
+                    let source = render(&spec);
+                    out.push(Program { idx: 0, label: format!("{} + default variant {} [custom error]", e.label, if first { "first" } else { "last" }), k: e.k + 1, spec, aux: json!(null), source });
+                }
+            }
+        }
         // an error type that mentions the enum's own type parameter
         if let Some(tp) = e.spec.generics.iter().find_map(|g| match g {
             Generic::Type { name, .. } => Some(name.clone()),
@@ -84,7 +111,13 @@ pub fn render(spec: &EnumSpec) -> String {
     // the instantiation of the first type parameter (u8, or vf_core::Nd for a parameter named P, ..)
     let first_ty_arg = spec.generics_inst().trim_start_matches('<').trim_end_matches('>').split(", ").find(|a| !a.starts_with('\'')).unwrap_or("u8").to_string();
     let err_g = format!("vf_core::MyErrG<{}>", first_ty_arg);
-    let err_ty = if generic_err { err_g.as_str() } else if spec.parse_err { "vf_core::MyErr" } else { "strum::ParseError" };
+    let inferred = spec.extra_attrs.iter().any(|a| a.contains("my_err_generic"));
+    let err_ty = if generic_err { err_g.as_str() } else if spec.parse_err || inferred { "vf_core::MyErr" } else { "strum::ParseError" };
+    if spec.variants.iter().any(|v| v.default && !v.disabled) {
+        // with a default variant no input is rejected; which error type the impl names is not observable through a result and is
+        // not asserted (the unchanged tree names strum::ParseError there)
+        return render_parse_module(spec, &derives, "vf_core::props::c18::explore(ctx, &mut from_str, &mut try_from);");
+    }
     let call = format!(
         "let _t1: fn(&str) -> Result<EC, {e}> = <EC as core::str::FromStr>::from_str;\n    let _t2: Option<<EC as core::str::FromStr>::Err> = None::<{e}>;\n    let _t3: Option<<EC as core::convert::TryFrom<&str>>::Error> = None::<{e}>;\n    vf_core::props::c18::explore(ctx, &mut from_str, &mut try_from);",
         e = err_ty
@@ -94,7 +127,7 @@ pub fn render(spec: &EnumSpec) -> String {
 
 pub fn explore(ctx: &mut Ctx, from_str: &mut dyn FnMut(&str) -> Obs, try_from: &mut dyn FnMut(&str) -> Obs) {
     let spec = ctx.spec().clone();
-    let custom = spec.parse_err || spec.extra_attrs.iter().any(|a| a.contains("MyErrG"));
+    let custom = spec.parse_err || spec.extra_attrs.iter().any(|a| a.contains("MyErrG") || a.contains("my_err_generic"));
     let inp = family_inputs(ctx);
     // counter discipline, checked around every single call
     let mut f1 = |s: &str| -> Obs {
